@@ -834,6 +834,10 @@ func (data *Data) ReSharding(info *ReShardingInfo) error {
 	if rp.ShardGroups[length-1].ID != info.ShardGroupID {
 		return ErrShardGroupAlreadyReSharding(info.ShardGroupID)
 	}
+	if uint32(len(info.Bounds))+1 > data.GetClusterPtNum() {
+		// one shard per partition at most: a surplus shard would get no owner and no index
+		return fmt.Errorf("resharding into %d shards needs as many partitions, have %d", len(info.Bounds)+1, data.GetClusterPtNum())
+	}
 
 	startTime := time.Unix(0, info.SplitTime+1)
 	data.createIndexGroup(info.Database, rp, startTime)
